@@ -852,8 +852,8 @@ func c32RunSession(st *vfkit.Stats, br *c32Broker, p c32SessionPlan) (string, c3
 	}
 	for i, piece := range pieces {
 		code := putPart(i+1, piece)
-		if code != http.StatusOK {
-			// a failed part upload (injected S3 failure) is retried once by the client, unless
+		if code == http.StatusBadGateway && fs.fault["UploadPart"] != "" {
+			// a part upload that failed at S3 (injected) is retried once by the client, unless
 			// exactly that history is a listed finding
 			if p.noRetry {
 				st.ExcludedCase(c32KnownRetry)
